@@ -215,12 +215,25 @@ Proof.
     apply String.eqb_eq in E; subst; congruence.
 Qed.
 
-Lemma trip_ok_nodup : forall jk ps g, trip_ok jk ps g -> NoDup (map (ckey jk) (dkeys (content g))).
+Lemma trip_ok_nodup : forall jk ps g, trip_ok jk ps g -> NoDup (map (ckey jk) (keys g)).
 Proof.
-  intros jk ps g H. destruct (t_wf _ _ _ H) as (Hk & Hdk & Hkd & _).
-  apply NoDup_map_on; [|exact Hdk].
-  intros a b Ha Hb E. apply Hkd in Ha, Hb. unfold ckey, trip_key in E.
+  intros jk ps g H. destruct (t_wf _ _ _ H) as (Hk & _).
+  apply NoDup_map_on; [|exact Hk].
+  intros a b Ha Hb E. unfold ckey, trip_key in E.
   apply to_numpy_str_inj in E. eapply t_inj; eauto.
+Qed.
+
+(* the content as it is written: one entry per element of the list, in list order *)
+Definition listed (g : gl) : dict := map (fun k => (k, get g k)) (keys g).
+
+Lemma serialized_content : forall g, NoDup (keys g) -> dict_of_keys (keys g) (get g) = listed g.
+Proof. intros g H. rewrite dict_of_keys_map, (keep_first_NoDup_id _ H). reflexivity. Qed.
+
+Lemma dict_of_keys_ext : forall (f h : val -> list val) ks,
+  (forall k, In k ks -> f k = h k) -> dict_of_keys ks f = dict_of_keys ks h.
+Proof.
+  intros f h ks H. rewrite !dict_of_keys_map. apply map_ext_in. intros k Hk. f_equal.
+  apply H. apply In_keep_first in Hk. destruct Hk as [[]|Hk]; exact Hk.
 Qed.
 
 Lemma deserialize_feature_shape : forall ps ks cont,
@@ -241,19 +254,23 @@ Lemma trip_feature_doc : forall jk ps g, trip_ok jk ps g ->
   numpy_types (loads (dumps jk (serialize_feature g))) =
   JDict [(VStr "order", JList (map JAtom (keys g)));
          (VStr "content",
-          JDict (map (fun kv => (ckey jk (fst kv), JList (map JAtom (snd kv)))) (content g)))].
+          JDict (map (fun kv => (ckey jk (fst kv), JList (map JAtom (snd kv)))) (listed g)))].
 Proof.
   intros jk ps g H. unfold serialize_feature.
+  destruct (t_wf _ _ _ H) as (Hk & _).
+  rewrite (serialized_content g Hk).
   rewrite trip_dict.
   2:{ vm_compute. repeat constructor; simpl; intuition discriminate. }
   cbn [map fst snd].
   change (trip_key jk (VStr "order")) with (VStr "order").
   change (trip_key jk (VStr "content")) with (VStr "content").
   rewrite trip_base_list.
-  2:{ apply Forall_forall. intros k Hk. eapply trip_ok_clean_key; eauto. }
-  rewrite trip_content; [reflexivity | eapply trip_ok_nodup; eauto |].
-  intros k vs Hi. pose proof (t_clean _ _ _ H) as Hc. rewrite Forall_forall in Hc.
-  apply Forall_forall. intros v Hv. apply Hc. apply In_dvalues. eauto.
+  2:{ apply Forall_forall. intros k Hi. eapply trip_ok_clean_key; eauto. }
+  rewrite trip_content; [reflexivity | |].
+  - unfold listed. rewrite dkeys_map. eapply trip_ok_nodup; eauto.
+  - intros k vs Hi. unfold listed in Hi. apply in_map_iff in Hi. destruct Hi as (x & E & Hx).
+    inversion E; subst. pose proof (t_clean _ _ _ H) as Hc. rewrite Forall_forall in Hc.
+    apply Forall_forall. intros v Hv. apply Hc. eapply In_get_values; eauto.
 Qed.
 
 (* THE ROUND TRIP OF ONE FEATURE: order list kept, each leader keeps exactly its member list,
@@ -264,19 +281,34 @@ Proof.
   intros jk ps g H. unfold roundtrip_gl.
   rewrite (trip_feature_doc jk ps g H), deserialize_feature_shape.
   pose proof (t_wf _ _ _ H) as Hwf. destruct Hwf as (Hk & Hdk & Hkd & Hv & Hl).
-  rewrite (feature_content_ok jk ps (content g) (trip_ok_nodup _ _ _ H)).
-  - cbn [bind app]. fold (get g).
+  assert (Hnd : NoDup (map (ckey jk) (dkeys (listed g)))).
+  { unfold listed. rewrite dkeys_map. eapply trip_ok_nodup; eauto. }
+  rewrite (feature_content_ok jk ps (listed g) Hnd).
+  - cbn [bind app].
+    assert (E : map (fun k => (k, match dget k (listed g) with Some vs => vs | None => [] end)) (keys g)
+                = listed g).
+    { unfold listed at 2. apply map_ext_in. intros k Hi. f_equal. unfold listed.
+      rewrite dget_map. apply mem_In in Hi. rewrite Hi. reflexivity. }
+    rewrite E. unfold listed.
     assert (Hfm : NoDup (flat_map (get g) (keys g))).
     { eapply Permutation_NoDup; [apply values_flat_map_get; apply (t_wf _ _ _ H) | exact Hv]. }
     rewrite of_dict_id.
     + rewrite dkeys_map. reflexivity.
     + rewrite dvalues_map. exact Hfm.
-    + intros k vs Hi. apply in_map_iff in Hi. destruct Hi as (x & E & Hx). inversion E; subst.
+    + intros k vs Hi. apply in_map_iff in Hi. destruct Hi as (x & E' & Hx). inversion E'; subst.
       apply WF_key_get; [apply (t_wf _ _ _ H) | exact Hx].
     + rewrite dkeys_map. intro Hi. destruct (trip_ok_clean_key _ _ _ _ H Hi) as (_ & Hnan & _).
       congruence.
-  - intros k Hi. split; [apply Hkd; exact Hi | eapply trip_ok_ckey; eauto].
+  - intros k Hi. split; [unfold listed; rewrite dkeys_map; exact Hi | eapply trip_ok_ckey; eauto].
   - simpl. exact Hk.
+Qed.
+
+(* serialising the normalised structure gives the very same document (no hypothesis) *)
+Lemma serialize_normalise : forall g, serialize_feature (normalise g) = serialize_feature g.
+Proof.
+  intros g. unfold serialize_feature. cbn [keys normalise].
+  replace (dict_of_keys (keys g) (get (normalise g))) with (dict_of_keys (keys g) (get g)); [reflexivity|].
+  symmetry. apply dict_of_keys_ext. intros k Hk. unfold normalise. apply get_map. exact Hk.
 Qed.
 
 (* ---- a whole values_orders -------------------------------------------------------------------- *)
@@ -400,9 +432,9 @@ Qed.
 
 Definition reloaded (jk : val -> string) (s : state) : state :=
   mkState KDiscretizer (st_features s) (normalise_vo (st_vo s)) (loads (dumps jk (st_meta s)))
-          (match st_class s with
-           | KCarver => loads (dumps jk (st_history s))
-           | KDiscretizer => JNone
+          (match to_json_history s with
+           | Some h => loads (dumps jk h)
+           | None => JNone
            end).
 
 Definition state_ok (jk ps : val -> string) (s : state) : Prop :=
@@ -412,16 +444,30 @@ Definition state_ok (jk ps : val -> string) (s : state) : Prop :=
 Theorem roundtrip_state_gen : forall jk ps s, state_ok jk ps s ->
   load ps (file_trip jk (to_json jk s)) = Ok (reloaded jk s).
 Proof.
-  intros jk ps [cl fs vo meta h] [Hvo Hfs]. simpl in Hvo, Hfs.
-  assert (Hmem : forallb (fun f => mem f (map fst (normalise_vo vo))) fs = true).
+  intros jk ps s [Hvo Hfs].
+  assert (Hmem : forallb (fun f => mem f (map fst (normalise_vo (st_vo s)))) (st_features s) = true).
   { rewrite normalise_vo_names. apply forallb_mem_incl. exact Hfs. }
-  pose proof (roundtrip_vo_ok jk ps vo Hvo) as Hrt. unfold roundtrip_vo in Hrt.
-  destruct cl; unfold load, file_trip, to_json, reloaded; cbn [st_class st_features st_vo st_meta
-    st_history j_features j_vo j_meta j_history].
-  - unfold load_discretizer. cbn [j_features j_vo j_meta j_history].
-    rewrite Hrt. cbn [bind]. rewrite Hmem. reflexivity.
+  pose proof (roundtrip_vo_ok jk ps (st_vo s) Hvo) as Hrt. unfold roundtrip_vo in Hrt.
+  unfold load, file_trip, to_json, reloaded. cbn [j_features j_vo j_meta j_history].
+  destruct (to_json_history s) as [h|].
   - unfold load_carver, load_discretizer. cbn [j_features j_vo j_meta j_history].
     rewrite Hrt. cbn [bind]. rewrite Hmem. reflexivity.
+  - unfold load_discretizer. cbn [j_features j_vo j_meta j_history].
+    rewrite Hrt. cbn [bind]. rewrite Hmem. reflexivity.
+Qed.
+
+Lemma hist_entry_some : forall h, h <> JNone -> hist_entry h = Some h.
+Proof. intros h H. destruct h; try reflexivity. congruence. Qed.
+
+(* the history attribute of the reloaded object, with plain JSON data *)
+Lemma reloaded_history : forall jk s, json_clean (st_history s) ->
+  (st_class s = KCarver -> st_history s <> JNone) ->
+  st_history (reloaded jk s) = st_history s.
+Proof.
+  intros jk [cl fs vo meta h] Hh Hc. unfold reloaded, to_json_history. cbn [st_class st_history] in *.
+  destruct cl.
+  - destruct h; cbn [hist_entry]; try reflexivity; apply loads_dumps_id; exact Hh.
+  - apply loads_dumps_id; exact Hh.
 Qed.
 
 (* with plain JSON meta data nothing but the content-dict order can change *)
@@ -431,12 +477,14 @@ Theorem roundtrip_state : forall jk ps s, state_ok jk ps s ->
              st_features s' = st_features s /\
              st_vo s' = normalise_vo (st_vo s) /\
              st_meta s' = st_meta s /\
-             (st_class s = KCarver -> st_history s' = st_history s).
+             st_history s' = st_history s.
 Proof.
   intros jk ps s Hok Hm Hh. exists (reloaded jk s). split; [apply roundtrip_state_gen; exact Hok|].
-  unfold reloaded; cbn [st_features st_vo st_meta st_history].
-  repeat split; [apply loads_dumps_id; exact Hm|].
-  intros ->. apply loads_dumps_id; exact Hh.
+  split; [reflexivity|]. split; [reflexivity|]. split; [apply loads_dumps_id; exact Hm|].
+  destruct s as [cl fs vo meta h]. unfold reloaded, to_json_history. cbn [st_class st_history] in *.
+  destruct cl.
+  - destruct h; cbn [hist_entry]; try reflexivity; apply loads_dumps_id; exact Hh.
+  - apply loads_dumps_id; exact Hh.
 Qed.
 
 (* behaviour (transform on any frame, labels_per_values, summary) is a function of the state:
@@ -485,44 +533,36 @@ Proof.
   destruct (t_wf _ _ _ (Hok f g Hi)) as (_ & Hd & _). exact Hd.
 Qed.
 
-(* Discretizer family: the reloaded object is the original one, and serialises to the same JSON *)
-Theorem roundtrip_idempotent : forall jk ps s, st_class s = KDiscretizer ->
-  state_ok jk ps s -> json_clean (st_meta s) ->
-  (forall f g, In (f, g) (st_vo s) -> ordered g) ->
+Lemma vo_text_normalise : forall jk vo, vo_text jk (normalise_vo vo) = vo_text jk vo.
+Proof.
+  intros jk vo. unfold vo_text, serialize_vo, normalise_vo. rewrite map_map. cbn [fst snd].
+  do 3 f_equal. apply map_ext. intros [f g]. cbn [fst snd]. rewrite serialize_normalise. reflexivity.
+Qed.
+
+(* IDEMPOTENCE, every class (the content is written in list order and a reloaded carver writes its
+   history again): the reloaded object serialises to the very same JSON.  No hypothesis on the
+   order of the content dict; a carver must have a history (fitted carvers always do). *)
+Theorem roundtrip_idempotent : forall jk ps s,
+  state_ok jk ps s -> json_clean (st_meta s) -> json_clean (st_history s) ->
+  (st_class s = KCarver -> st_history s <> JNone) ->
   exists s', load ps (file_trip jk (to_json jk s)) = Ok s' /\
+             to_json jk s' = to_json jk s /\
              file_trip jk (to_json jk s') = file_trip jk (to_json jk s) /\
-             st_vo s' = st_vo s.
+             ((forall f g, In (f, g) (st_vo s) -> ordered g) -> st_vo s' = st_vo s).
 Proof.
-  intros jk ps s Hc Hok Hm Ho. exists (reloaded jk s).
+  intros jk ps s Hok Hm Hh Hc. exists (reloaded jk s).
   split; [apply roundtrip_state_gen; exact Hok|].
-  destruct Hok as [Hvo _]. destruct s as [cl fs vo meta h]. simpl in *. subst cl.
-  unfold reloaded, to_json, file_trip. cbn [st_class st_features st_vo st_meta st_history j_features
-    j_vo j_meta j_history].
-  rewrite (normalise_vo_ordered jk ps vo Hvo Ho), !(loads_dumps_id jk meta Hm). split; reflexivity.
-Qed.
-
-(* Carvers (observation O6): whatever the carver, the reloaded object is a BaseDiscretizer whose
-   to_json() has no "_history" while the JSON it was loaded from has one *)
-Theorem carver_reload_drops_history : forall jk ps s s', st_class s = KCarver ->
-  load ps (file_trip jk (to_json jk s)) = Ok s' ->
-  j_history (file_trip jk (to_json jk s')) = None /\
-  j_history (file_trip jk (to_json jk s)) <> None.
-Proof.
-  intros jk ps [cl fs vo meta h] s' Hc Hl. simpl in Hc. subst cl.
-  unfold load, file_trip, to_json in Hl. cbn [st_class st_features st_vo st_meta st_history
-    j_features j_vo j_meta j_history] in Hl.
-  unfold load_carver in Hl. cbn [j_features j_vo j_meta j_history] in Hl.
-  destruct (load_discretizer ps _) as [s0| |] eqn:E; cbn [bind] in Hl; try discriminate.
-  inversion Hl; subst s'. unfold file_trip, to_json. cbn. split; [reflexivity | discriminate].
-Qed.
-
-Theorem roundtrip_idempotent_carver_refuted : forall jk ps s s', st_class s = KCarver ->
-  load ps (file_trip jk (to_json jk s)) = Ok s' ->
-  file_trip jk (to_json jk s') <> file_trip jk (to_json jk s).
-Proof.
-  intros jk ps s s' Hc Hl E.
-  destruct (carver_reload_drops_history jk ps s s' Hc Hl) as [H1 H2].
-  rewrite E in H1. contradiction.
+  assert (E : to_json jk (reloaded jk s) = to_json jk s).
+  { pose proof (reloaded_history jk s Hh Hc) as Hrh.
+    unfold to_json. f_equal.
+    - unfold reloaded; cbn [st_vo]. apply vo_text_normalise.
+    - unfold reloaded; cbn [st_meta]. apply loads_dumps_id; exact Hm.
+    - unfold to_json_history at 1. rewrite Hrh. unfold reloaded at 1; cbn [st_class].
+      unfold to_json_history. destruct (st_class s); [reflexivity|].
+      apply hist_entry_some. apply Hc. reflexivity. }
+  split; [exact E|]. split; [rewrite E; reflexivity|].
+  intro Ho. unfold reloaded; cbn [st_vo]. destruct Hok as [Hvo _].
+  apply (normalise_vo_ordered jk ps _ Hvo Ho).
 Qed.
 
 (* ---- the checker's booleans ------------------------------------------------------------------ *)
@@ -574,7 +614,7 @@ Qed.
    reload of it is its normal form *)
 Theorem checker_link : forall f, trip_ok_b (jkf f) (psf f) (f_orig f) = true ->
   model_reload f = Ok (normalise (f_orig f)).
-Proof. intros f H. apply roundtrip_gl_ok, trip_ok_b_sound, H. Qed.
+Proof. intros f H. unfold model_reload. apply roundtrip_gl_ok. apply trip_ok_b_sound. exact H. Qed.
 
 Theorem same_groups_sound : forall a b, same_groups a b = true ->
   keys a = keys b /\ (forall k, In k (keys a) -> get a k = get b k) /\
@@ -645,19 +685,21 @@ Lemma witness_str_differs_from_key :
   roundtrip_gl w_jk (fun _ => "2.50") (mkGL [VNum 5] [(VNum 5, [VNum 5])]) = InternalErr.
 Proof. vm_compute. reflexivity. Qed.
 
-(* content dict not in list order (after replace_group_leader): the state survives, up to the
-   order of the content dict, but the second dump is a different text *)
+(* content dict not in list order (after replace_group_leader): everything survives, the text is
+   the same again, only the order of the reloaded content dict differs from the original one:
+   `ordered` is necessary for  st_vo s' = st_vo s  and for nothing else *)
 Definition w_unordered : gl :=
   mkGL [VStr "b"; VStr "c"] [(VStr "c", [VStr "c"]); (VStr "b", [VStr "a"; VStr "b"])].
 
 Lemma witness_unordered_content :
   trip_ok_b w_jk w_jk w_unordered = true /\
   roundtrip_gl w_jk w_jk w_unordered = Ok (normalise w_unordered) /\
-  dumps w_jk (serialize_feature (normalise w_unordered)) <> dumps w_jk (serialize_feature w_unordered).
+  normalise w_unordered <> w_unordered /\
+  dumps w_jk (serialize_feature (normalise w_unordered)) = dumps w_jk (serialize_feature w_unordered).
 Proof.
   split; [vm_compute; reflexivity|].
   split; [vm_compute; reflexivity|].
-  vm_compute. discriminate.
+  split; [vm_compute; discriminate | vm_compute; reflexivity].
 Qed.
 
 (* ---- non-vacuity: a quantitative and a qualitative feature, Discretizer and carver ----------- *)
@@ -694,18 +736,24 @@ Qed.
 Lemma ex_ordered : forall k f g, In (f, g) (st_vo (ex_state k)) -> ordered g.
 Proof. intros k f g [E|[E|[]]]; inversion E; subst; reflexivity. Qed.
 
+Lemma ex_history_clean : json_clean (st_history (ex_state KCarver)).
+Proof.
+  simpl. constructor; [simpl; repeat constructor; simpl; intuition discriminate|].
+  repeat constructor; cbn [fst snd]; eauto; try (simpl; repeat constructor; simpl; intuition discriminate).
+Qed.
+
 Lemma example_nonvacuous :
   state_ok w_jk w_jk (ex_state KDiscretizer) /\ json_clean (st_meta (ex_state KDiscretizer)) /\
-  (forall f g, In (f, g) (st_vo (ex_state KDiscretizer)) -> ordered g) /\
   load w_jk (file_trip w_jk (to_json w_jk (ex_state KDiscretizer))) =
-    Ok (mkState KDiscretizer [VStr "q"; VStr "c"] [(VStr "q", ex_quant); (VStr "c", ex_qual)] ex_meta JNone) /\
-  state_ok w_jk w_jk (ex_state KCarver) /\
+    Ok (ex_state KDiscretizer) /\
+  state_ok w_jk w_jk (ex_state KCarver) /\ json_clean (st_history (ex_state KCarver)) /\
+  st_history (ex_state KCarver) <> JNone /\
   (exists s', load w_jk (file_trip w_jk (to_json w_jk (ex_state KCarver))) = Ok s' /\
-              st_vo s' = st_vo (ex_state KCarver) /\
-              file_trip w_jk (to_json w_jk s') <> file_trip w_jk (to_json w_jk (ex_state KCarver))).
+              st_vo s' = st_vo (ex_state KCarver) /\ st_history s' = st_history (ex_state KCarver) /\
+              to_json w_jk s' = to_json w_jk (ex_state KCarver)).
 Proof.
-  split; [apply ex_state_ok|]. split; [apply ex_meta_clean|]. split; [apply ex_ordered|].
-  split; [vm_compute; reflexivity|]. split; [apply ex_state_ok|].
-  eexists. split; [vm_compute; reflexivity|]. split; [reflexivity|].
-  vm_compute. discriminate.
+  split; [apply ex_state_ok|]. split; [apply ex_meta_clean|].
+  split; [vm_compute; reflexivity|]. split; [apply ex_state_ok|]. split; [apply ex_history_clean|].
+  split; [simpl; discriminate|].
+  eexists. split; [vm_compute; reflexivity|]. split; [reflexivity|]. split; reflexivity.
 Qed.
